@@ -230,6 +230,7 @@ var props = map[string]*Prop{
 			{Name: "adversarial-families", Pkg: "pkg/diff", Test: "TestVerifC17", Shards: sh(8, 8), TimeoutS: sh(1800, 3600), DeadlineS: sh(900, 3000)},
 			{Name: "oversized-inputs", Pkg: "internal/cli", Test: "TestVerifC17Inputs", Shards: sh(16, 16), TimeoutS: sh(1800, 1800)},
 			{Name: "one-sided-oversize", Pkg: "internal/cli", Test: "TestVerifC17Grown", Shards: sh(8, 8), TimeoutS: sh(1800, 1800)},
+			{Name: "cyclic-types-cli", Pkg: "internal/cli", Test: "TestVerifC17Cyclic", Shards: sh(13, 13), TimeoutS: sh(1800, 1800), Builds: []Build{{Pkg: "cmd/sfw", Out: "sfw"}}},
 		},
 	},
 	"C13": {
